@@ -231,3 +231,1419 @@ Proof.
   induction a as [|e a IH]; intros b m; cbn [app mon_run]; [reflexivity|].
   destruct (mon_step m e); [apply IH | reflexivity].
 Qed.
+
+(* ================================================================ Part C: the connection model is disciplined
+   [owner_of s l]: who owns location l when the model is in state s (read off the stage of the object:
+   a message is with the reader, in msgChan, with the writer, or handed to a caller; ...).  The invariant
+   [J s m] says that the monitor's map is exactly that, plus which tokens have not been sent yet.  Each of
+   the 20 kinds of step is shown to keep it ([ok_*]); locations the step does not touch are handled by
+   the frame lemmas. *)
+
+Definition owner_of (s : st) (l : loc) : owner :=
+  match l with
+  | LSerial => OThread TWriter
+  | LRecord => OThread TWriter
+  | LKey => OThread TReader
+  | LBuf => OThread TReader
+  | LRegistry => OThread TMgr
+  | LSessHdr => match sess s with
+                | SNone => OFresh | SJoin => OToken KJoin | SMgr => OThread TMgr
+                | SAct i => OToken (KAct i) | SW => OThread TWriter end
+  | LMsg n => match mst s n with
+              | MNone => OFresh | MRead => OThread TReader | MQ => OToken (KMsg n) | MW => OThread TWriter
+              | MC i => match cst s i with CDone _ => OThread (TCaller i) | _ => OToken (KReply i) end
+              end
+  | LAct i => match cst s i with
+              | CNone => OFresh | COpQ => OToken (KWrite i) | CActQ => OToken (KAct i) | COut => OThread TWriter
+              | CRepl _ => OToken (KReply i) | CDone _ => OThread (TCaller i) end
+  | LReply i => match tst s i with
+                | TNone => OFresh
+                | TRun | TStopped => OThread (TTimer i)
+                | TCpl => OToken (KCpl i)
+                | TW | TBack => match cst s i with
+                                | CRepl l => if loc_eqb l (LReply i) then OToken (KReply i) else OThread TWriter
+                                | CDone l => if loc_eqb l (LReply i) then OThread (TCaller i) else OThread TWriter
+                                | _ => OThread TWriter end
+                end
+  | LFin i => match cst s i with
+              | CRepl l => if loc_eqb l (LFin i) then OToken (KReply i) else OFresh
+              | CDone l => if loc_eqb l (LFin i) then OThread (TCaller i) else OFresh
+              | _ => OFresh end
+  | LConn | LHandles => OFresh (* not used: see own_rel *)
+  end.
+
+Definition own_rel (s : st) (m : mon) (l : loc) : Prop :=
+  match l with
+  | LConn => exists ts, own m l = OShared ts /\ mem_tid TReader ts = true /\ mem_tid TWriter ts = true /\
+                        mem_tid TMgr ts = true /\ mem_tid TMain ts = true /\
+                        (forall i, tst s i = TRun -> mem_tid (TTimer i) ts = true)
+  | LHandles => exists ts, own m l = OShared ts /\ mem_tid TReader ts = true /\ mem_tid TWriter ts = true
+  | _ => own m l = owner_of s l
+  end.
+
+Definition cmd_ok (s : st) (m : mon) (i : nat) : Prop :=
+  match cst s i with
+  | CNone => sent m (KWrite i) = false /\ sent m (KAct i) = false /\ sent m (KReply i) = false /\ tst s i = TNone
+  | COpQ => sent m (KAct i) = false /\ sent m (KReply i) = false /\ tst s i = TNone
+  | CActQ => sent m (KReply i) = false /\ tst s i = TNone /\ match sess s with SW | SAct _ => True | _ => False end
+  | COut => sent m (KReply i) = false
+  | CRepl l => own m l = OToken (KReply i)
+  | CDone _ => True
+  end.
+
+Definition not_reply (s : st) (i : nat) : Prop :=
+  match cst s i with CRepl l | CDone l => loc_eqb l (LReply i) = false | _ => True end.
+
+Definition tmr_ok (s : st) (m : mon) (i : nat) : Prop :=
+  match tst s i with
+  | TNone | TW => sent m (KCpl i) = false
+  | TRun => sent m (KCpl i) = false /\ not_reply s i
+  | TCpl | TStopped => not_reply s i
+  | TBack => True
+  end.
+
+Definition msg_ok (s : st) (m : mon) (n : nat) : Prop :=
+  match mst s n with MNone | MRead => sent m (KMsg n) = false | _ => True end.
+
+Record J (s : st) (m : mon) : Prop := {
+  j_booted : booted s = true;
+  j_hdr : hdr s = LSessHdr;
+  j_own : forall l, own_rel s m l;
+  j_cmd : forall i, cmd_ok s m i;
+  j_tmr : forall i, tmr_ok s m i;
+  j_msg : forall n, msg_ok s m n;
+  j_join : match joinst s with
+           | JNone => sent m KJoin = false /\ sent m KJoinAck = false /\ sess s = SNone
+           | JSent n => sent m KJoinAck = false /\ mst s n = MRead /\ sess s = SJoin
+           | JMgr n => mst s n = MRead
+           | JAcked => True end;
+  j_leave : match leavest s with
+            | LvNone => sent m KLeave = false /\ sent m KLeaveAck = false /\ sent m KStop = false
+            | LvSent => sent m KLeaveAck = false /\ sent m KStop = false
+            | LvMgr => sent m KStop = false
+            | LvStopped => True end;
+  j_reg : registered s = true -> match sess s with SMgr | SW | SAct _ => True | _ => False end;
+}.
+
+Definition boot_evs := [EAcc TMain LConn true; EAcc TMain LHandles true; EAcc TMain LSerial true; EAcc TMain LKey true;
+             EFork TMain M [] [LConn]; EFork TMain R [LKey] [LConn; LHandles]; EFork TMain W [LSerial] [LConn; LHandles];
+             EAcc M LRegistry true; EAcc R LBuf true; EAcc W LRecord true].
+
+Lemma boot_ok : exists m, mon_run mon0 boot_evs = Some m /\ J (set_booted init) m.
+Proof.
+  eexists. split; [vm_compute; reflexivity|].
+  constructor.
+  - reflexivity.
+  - reflexivity.
+  - intros l. destruct l; cbn; try reflexivity.
+    + eexists; repeat split. intros i H; discriminate.
+    + eexists; repeat split.
+  - intros i. cbv. auto.
+  - intros i. reflexivity.
+  - intros n. reflexivity.
+  - cbn. auto.
+  - cbn. auto.
+  - cbn. discriminate.
+Qed.
+
+Lemma reader_free_inv s : reader_free s = true ->
+  booted s = true /\ leavest s = LvNone /\ match joinst s with JSent _ | JMgr _ => False | _ => True end.
+Proof.
+  unfold reader_free. destruct (booted s), (leavest s), (joinst s); cbn; intros H; try discriminate; auto.
+Qed.
+
+Lemma is_mst_inv s n x : is_mst s n x = true -> mst s n = x.
+Proof. unfold is_mst. destruct (mst s n), x; intros H; try discriminate; reflexivity. Qed.
+
+Lemma wrun_inv s : wrun s = true -> booted s = true /\ wst s = WRun.
+Proof. unfold wrun. destruct (booted s), (wst s); cbn; intros; try discriminate; auto. Qed.
+Lemma wstopping_inv s : wstopping s = true -> booted s = true /\ wst s = WStopping.
+Proof. unfold wstopping. destruct (booted s), (wst s); cbn; intros; try discriminate; auto. Qed.
+
+(* a location in transit stays in transit until its token is received *)
+Definition not_recv (k : tok) (e : ev) : bool := match e with ERecv _ k' => negb (tok_eqb k' k) | _ => true end.
+
+Lemma tok_stable_step m e m' l k :
+  mon_step m e = Some m' -> not_recv k e = true -> own m l = OToken k -> own m' l = OToken k.
+Proof.
+  intros Hm Hn Ho. destruct e as [t l0 w|t k0 give|t k0|t u give share]; cbn [mon_step] in Hm.
+  - destruct (own m l0) as [|t'|k'|ts] eqn:E0.
+    + injection Hm as <-. cbn [own]. unfold updl. destruct (loc_eqb_spec l l0); [subst; congruence | exact Ho].
+    + destruct (tid_eqb t' t); [injection Hm as <-; exact Ho | discriminate].
+    + discriminate.
+    + destruct (negb w && mem_tid t ts); [injection Hm as <-; exact Ho | discriminate].
+  - destruct (sent m k0); [discriminate|]. destruct (forallb (owned_by m t) give) eqn:Eg; [|discriminate].
+    injection Hm as <-. cbn [own]. destruct (mem_loc l give) eqn:Em; [|exact Ho].
+    apply mem_loc_In in Em. apply (forallb_In _ _ _ Eg), owned_by_eq in Em. congruence.
+  - injection Hm as <-. cbn [own]. rewrite Ho. cbn [not_recv] in Hn.
+    destruct (tok_eqb_spec k k0) as [->|]; [|reflexivity]. rewrite tok_eqb_refl in Hn. discriminate.
+  - destruct (tid_eqb t u); [discriminate|].
+    destruct (forallb (owned_by m t) give) eqn:Eg; cbn [andb] in Hm; [|discriminate].
+    destruct (forallb (shareable m t) share) eqn:Es; [|discriminate]. injection Hm as <-. cbn [own].
+    destruct (mem_loc l give) eqn:Em.
+    + apply mem_loc_In in Em. apply (forallb_In _ _ _ Eg), owned_by_eq in Em. congruence.
+    + destruct (mem_loc l share) eqn:Ems; [|exact Ho]. rewrite Ho. reflexivity.
+Qed.
+
+Lemma tok_stable : forall evs m m' l k,
+  mon_run m evs = Some m' -> forallb (not_recv k) evs = true -> own m l = OToken k -> own m' l = OToken k.
+Proof.
+  induction evs as [|e evs IH]; intros m m' l k Hr Hn Ho; cbn [mon_run] in Hr.
+  - injection Hr as <-. exact Ho.
+  - cbn [forallb] in Hn. apply andb_prop in Hn. destruct Hn as [Hn1 Hn2].
+    destruct (mon_step m e) as [m1|] eqn:E1; [|discriminate].
+    exact (IH m1 m' l k Hr Hn2 (tok_stable_step m e m1 l k E1 Hn1 Ho)).
+Qed.
+
+(* ---- frame lemmas: what a list of events cannot change *)
+Definition carriers (k : tok) : list loc :=
+  match k with
+  | KJoin => [LSessHdr] | KAct i => [LAct i; LSessHdr] | KWrite i => [LAct i]
+  | KCpl i => [LReply i] | KMsg n => [LMsg n] | _ => []
+  end.
+
+Definition carried (l : loc) (k : tok) : Prop :=
+  match k with KReply _ => True | _ => mem_loc l (carriers k) = true end.
+
+Lemma owner_tok s l k : owner_of s l = OToken k -> carried l k.
+Proof.
+  unfold carried.
+  destruct l as [| | | | | | | |n|i|i|i]; cbn [owner_of]; try discriminate.
+  - destruct (sess s); try discriminate; intros [= <-]; cbn; rewrite ?Nat.eqb_refl; auto.
+  - destruct (mst s n) as [| | | |j]; try discriminate; try (intros [= <-]; cbn; rewrite ?Nat.eqb_refl; auto).
+    destruct (cst s j); try discriminate; intros [= <-]; exact I.
+  - destruct (cst s i); intros [= <-]; cbn; rewrite ?Nat.eqb_refl; auto.
+  - destruct (tst s i); try discriminate; try (intros [= <-]; cbn; rewrite ?Nat.eqb_refl; auto);
+      destruct (cst s i); try discriminate; destruct (loc_eqb _ _); intros [= <-]; exact I.
+  - destruct (cst s i); try discriminate; destruct (loc_eqb _ _); try discriminate; intros [= <-]; exact I.
+Qed.
+
+Definition quiet (fresh : bool) (l : loc) (e : ev) : bool :=
+  match e with
+  | EAcc _ l' _ => if fresh then negb (loc_eqb l' l) else true
+  | ESend _ _ g => negb (mem_loc l g)
+  | ERecv _ k => match k with KReply _ => false | _ => negb (mem_loc l (carriers k)) end
+  | EFork _ _ g sh => negb (mem_loc l g) && negb (mem_loc l sh)
+  end.
+
+Lemma frame_step m e m1 l fresh :
+  mon_step m e = Some m1 -> quiet fresh l e = true ->
+  (fresh = false -> own m l <> OFresh) ->
+  (forall k, own m l = OToken k -> carried l k) ->
+  own m1 l = own m l.
+Proof.
+  intros Hm Hq Hf Hk. destruct e as [t l0 w|t k0 give|t k0|t u give share]; cbn [mon_step quiet] in *.
+  - destruct (own m l0) as [|t'|k'|ts] eqn:E0.
+    + injection Hm as <-. cbn [own]. unfold updl. destruct (loc_eqb_spec l l0) as [->|]; [|reflexivity].
+      destruct fresh; [rewrite loc_eqb_refl in Hq; discriminate | now destruct (Hf eq_refl)].
+    + destruct (tid_eqb t' t); [injection Hm as <-; reflexivity | discriminate].
+    + discriminate.
+    + destruct (negb w && mem_tid t ts); [injection Hm as <-; reflexivity | discriminate].
+  - destruct (sent m k0); [discriminate|]. destruct (forallb (owned_by m t) give); [|discriminate].
+    injection Hm as <-. cbn [own]. destruct (mem_loc l give); [discriminate | reflexivity].
+  - injection Hm as <-. cbn [own]. destruct (own m l) as [|t'|k'|ts] eqn:E0; try reflexivity.
+    destruct (tok_eqb_spec k' k0) as [->|]; [|reflexivity].
+    specialize (Hk _ eq_refl). unfold carried in Hk. destruct k0; try discriminate; rewrite Hk in Hq; discriminate.
+  - destruct (tid_eqb t u); [discriminate|].
+    destruct (forallb (owned_by m t) give && forallb (shareable m t) share); [|discriminate].
+    injection Hm as <-. cbn [own].
+    destruct (mem_loc l give); [discriminate|]. destruct (mem_loc l share); [discriminate | reflexivity].
+Qed.
+
+Lemma frame_own : forall evs m m' l fresh,
+  mon_run m evs = Some m' -> forallb (quiet fresh l) evs = true ->
+  (fresh = false -> own m l <> OFresh) ->
+  (forall k, own m l = OToken k -> carried l k) ->
+  own m' l = own m l.
+Proof.
+  induction evs as [|e evs IH]; intros m m' l fresh Hr Hq Hf Hk; cbn [mon_run] in Hr.
+  - injection Hr as <-. reflexivity.
+  - cbn [forallb] in Hq. apply andb_prop in Hq. destruct Hq as [Hq1 Hq2].
+    destruct (mon_step m e) as [m1|] eqn:E1; [|discriminate].
+    pose proof (frame_step m e m1 l fresh E1 Hq1 Hf Hk) as H1.
+    rewrite <- H1. apply (IH m1 m' l fresh Hr Hq2); rewrite H1; assumption.
+Qed.
+
+Lemma sent_step m e m1 k :
+  mon_step m e = Some m1 -> (match e with ESend _ k' _ => negb (tok_eqb k k') | _ => true end) = true ->
+  sent m1 k = sent m k.
+Proof.
+  intros Hm Hq. destruct e as [t l0 w|t k0 give|t k0|t u give share]; cbn [mon_step] in Hm.
+  - destruct (own m l0) as [|t'|k'|ts]; try discriminate.
+    + injection Hm as <-. reflexivity.
+    + destruct (tid_eqb t' t); [injection Hm as <-; reflexivity | discriminate].
+    + destruct (negb w && mem_tid t ts); [injection Hm as <-; reflexivity | discriminate].
+  - destruct (sent m k0); [discriminate|]. destruct (forallb (owned_by m t) give); [|discriminate].
+    injection Hm as <-. cbn [sent]. unfold updk. destruct (tok_eqb k k0); [discriminate | reflexivity].
+  - injection Hm as <-. reflexivity.
+  - destruct (tid_eqb t u); [discriminate|].
+    destruct (forallb (owned_by m t) give && forallb (shareable m t) share); [|discriminate].
+    injection Hm as <-. reflexivity.
+Qed.
+
+Definition not_send (k : tok) (e : ev) : bool := match e with ESend _ k' _ => negb (tok_eqb k k') | _ => true end.
+
+Lemma frame_sent : forall evs m m' k,
+  mon_run m evs = Some m' -> forallb (not_send k) evs = true -> sent m' k = sent m k.
+Proof.
+  induction evs as [|e evs IH]; intros m m' k Hr Hq; cbn [mon_run] in Hr.
+  - injection Hr as <-. reflexivity.
+  - cbn [forallb] in Hq. apply andb_prop in Hq. destruct Hq as [Hq1 Hq2].
+    destruct (mon_step m e) as [m1|] eqn:E1; [|discriminate].
+    rewrite (IH m1 m' k Hr Hq2). exact (sent_step m e m1 k E1 Hq1).
+Qed.
+
+Lemma own_frame s m evs m' l fresh :
+  own m l = owner_of s l -> mon_run m evs = Some m' -> forallb (quiet fresh l) evs = true ->
+  (fresh = false -> owner_of s l <> OFresh) -> own m' l = owner_of s l.
+Proof.
+  intros Ho Hr Hq Hf. rewrite <- Ho. apply (frame_own evs m m' l fresh Hr Hq).
+  - rewrite Ho. exact Hf.
+  - intros k Hk. rewrite Ho in Hk. exact (owner_tok s l k Hk).
+Qed.
+
+Definition sess_live (s : st) : Prop := match sess s with SW | SAct _ => True | _ => False end.
+
+Lemma cmd_frame s m s' m' evs i :
+  cmd_ok s m i -> mon_run m evs = Some m' ->
+  cst s' i = cst s i -> tst s' i = tst s i -> (sess_live s -> sess_live s') ->
+  forallb (not_send (KWrite i)) evs = true -> forallb (not_send (KAct i)) evs = true ->
+  forallb (not_send (KReply i)) evs = true -> forallb (not_recv (KReply i)) evs = true ->
+  cmd_ok s' m' i.
+Proof.
+  intros Hc Hr Ec Et Hs H1 H2 H3 H4. unfold cmd_ok in *. rewrite Ec, Et.
+  rewrite (frame_sent evs m m' _ Hr H1), (frame_sent evs m m' _ Hr H2), (frame_sent evs m m' _ Hr H3).
+  destruct (cst s i) as [| | | |l|l]; try exact Hc.
+  - destruct Hc as [? [? ?]]. repeat split; auto. apply Hs. assumption.
+  - exact (tok_stable evs m m' l _ Hr H4 Hc).
+Qed.
+
+Lemma tmr_frame s m s' m' evs i :
+  tmr_ok s m i -> mon_run m evs = Some m' ->
+  tst s' i = tst s i -> cst s' i = cst s i -> forallb (not_send (KCpl i)) evs = true ->
+  tmr_ok s' m' i.
+Proof.
+  intros Hc Hr Et Ec H1. unfold tmr_ok, not_reply in *. rewrite Et, Ec.
+  rewrite (frame_sent evs m m' _ Hr H1). exact Hc.
+Qed.
+
+Lemma msg_frame s m s' m' evs n :
+  msg_ok s m n -> mon_run m evs = Some m' ->
+  mst s' n = mst s n -> forallb (not_send (KMsg n)) evs = true -> msg_ok s' m' n.
+Proof.
+  intros Hc Hr Et H1. unfold msg_ok in *. rewrite Et. rewrite (frame_sent evs m m' _ Hr H1). exact Hc.
+Qed.
+
+Ltac msimp := cbn [mon_run mon_step own sent updl updk mem_loc existsb forallb owned_by shareable
+                   loc_eqb tok_eqb tid_eqb negb andb orb R W M app].
+
+Ltac jdestruct HJ :=
+  unfold R, W, M in *;
+  destruct HJ as [Jb Jh Jo Jc Jt Jm Jj Jl Jr];
+  destruct (Jo LConn) as [tsC [HC [HCr [HCw [HCm [HCM HCt]]]]]];
+  destruct (Jo LHandles) as [tsH [HH [HHr HHw]]];
+  pose proof (Jo LSerial) as HSer; pose proof (Jo LRecord) as HRec; pose proof (Jo LKey) as HKey;
+  pose proof (Jo LBuf) as HBuf; pose proof (Jo LRegistry) as HReg; pose proof (Jo LSessHdr) as HSess;
+  cbn [own_rel owner_of] in HSer, HRec, HKey, HBuf, HReg, HSess.
+
+(* own_rel for LConn / LHandles when nothing is shared further and no new timer runs *)
+Lemma conn_frame s m s' m' evs :
+  own_rel s m LConn -> mon_run m evs = Some m' -> forallb (quiet false LConn) evs = true ->
+  (forall i, tst s' i = TRun -> tst s i = TRun) -> own_rel s' m' LConn.
+Proof.
+  intros [ts [Ho [Hr1 [Hw1 [Hm1 [HM1 Ht]]]]]] Hr Hq Hsub. exists ts.
+  rewrite (frame_own evs m m' LConn false Hr Hq); [|intros _; rewrite Ho; discriminate | intros k Hk; rewrite Ho in Hk; discriminate].
+  repeat split; auto.
+Qed.
+
+Lemma handles_frame s m s' m' evs :
+  own_rel s m LHandles -> mon_run m evs = Some m' -> forallb (quiet false LHandles) evs = true ->
+  own_rel s' m' LHandles.
+Proof.
+  intros [ts [Ho [Hr1 Hw1]]] Hr Hq. exists ts.
+  rewrite (frame_own evs m m' LHandles false Hr Hq); [|intros _; rewrite Ho; discriminate | intros k Hk; rewrite Ho in Hk; discriminate].
+  repeat split; auto.
+Qed.
+
+Lemma updn_same {A} (f : nat -> A) n a : updn f n a n = a.
+Proof. unfold updn. now rewrite Nat.eqb_refl. Qed.
+
+Ltac inv_some H := match type of H with Some _ = Some _ => injection H as <- <- | None = Some _ => discriminate H end.
+
+Ltac neq_facts :=
+  repeat match goal with
+  | H : ?a <> ?b |- _ =>
+      let H1 := fresh "Hne" in let H2 := fresh "Hne" in
+      assert (H1 : Nat.eqb a b = false) by (apply Nat.eqb_neq; exact H);
+      assert (H2 : Nat.eqb b a = false) by (apply Nat.eqb_neq; intro; apply H; auto);
+      clear H
+  end.
+
+Ltac rw_neq := repeat match goal with H : Nat.eqb _ _ = false |- _ => rewrite H end.
+
+Ltac qsolve :=
+  cbn [forallb quiet not_send not_recv mem_loc existsb carriers loc_eqb tok_eqb negb andb orb app];
+  rw_neq; rewrite ?Nat.eqb_refl; reflexivity.
+
+(* goal: own m' l = <owner_of s l, possibly unfolded>, l not given/received by the events *)
+Ltac own_fr s m Jo Hrun fresh :=
+  let l := match goal with |- own_rel _ _ ?l => l | |- own _ ?l = _ => l end in
+  refine (own_frame s m _ _ l fresh (Jo l) Hrun _ _); [qsolve | first [discriminate | intros _; discriminate | idtac]].
+
+Ltac sset := cbn [booted hdr mst cst tst joinst leavest registered sess wst
+                  set_booted set_mst set_cst set_tst set_joinst set_leavest set_registered set_sess set_wst set_hdr].
+
+Lemma ok_RRead n s m s' evs : J s m -> step repaired s (RRead n) = Some (s', evs) ->
+  exists m', mon_run m evs = Some m' /\ J s' m'.
+Proof.
+  intros HJ Hs. cbn [step] in Hs.
+  destruct (reader_free s) eqn:Hrf; cbn [andb] in Hs; [|discriminate].
+  destruct (is_mst s n MNone) eqn:Hm; [|discriminate]. inv_some Hs.
+  apply is_mst_inv in Hm. apply reader_free_inv in Hrf. destruct Hrf as [Hb [Hlv Hjn]].
+  jdestruct HJ.
+  pose proof (Jo (LMsg n)) as HM. cbn in HM. rewrite Hm in HM.
+  match goal with |- exists m', mon_run m ?E = _ /\ _ => eassert (Hrun : mon_run m E = Some _) end.
+  { msimp. rewrite HC. msimp. rewrite HCr. msimp. rewrite HBuf. msimp. rewrite HH. msimp. rewrite HHr. msimp.
+    rewrite HM. reflexivity. }
+  eexists. split; [exact Hrun|].
+  constructor.
+  - exact Jb.
+  - exact Jh.
+  - intros l. destruct l as [| | | | | | | |n0|i0|i0|i0].
+    + apply (conn_frame s m _ _ _ (Jo LConn) Hrun); [qsolve | intros i H; exact H].
+    + apply (handles_frame s m _ _ _ (Jo LHandles) Hrun); qsolve.
+    + own_fr s m Jo Hrun false.
+    + own_fr s m Jo Hrun false.
+    + own_fr s m Jo Hrun false.
+    + own_fr s m Jo Hrun false.
+    + own_fr s m Jo Hrun false.
+    + own_fr s m Jo Hrun true.
+    + destruct (Nat.eq_dec n0 n) as [->|Hn].
+      * cbn. rewrite updn_same. unfold updl. now rewrite loc_eqb_refl.
+      * neq_facts. cbn [own_rel owner_of]. sset. unfold updn. rw_neq. own_fr s m Jo Hrun true.
+    + own_fr s m Jo Hrun true.
+    + own_fr s m Jo Hrun true.
+    + own_fr s m Jo Hrun true.
+  - intros i. apply (cmd_frame s m _ _ _ i (Jc i) Hrun); try reflexivity; auto.
+  - intros i. apply (tmr_frame s m _ _ _ i (Jt i) Hrun); reflexivity.
+  - intros n0. destruct (Nat.eq_dec n0 n) as [->|Hn].
+    + unfold msg_ok. sset. rewrite updn_same. pose proof (Jm n) as H0. unfold msg_ok in H0. rewrite Hm in H0. exact H0.
+    + neq_facts. apply (msg_frame s m _ _ _ n0 (Jm n0) Hrun); [sset; unfold updn; rw_neq; reflexivity | reflexivity].
+  - sset. destruct (joinst s) as [|n0|n0|]; try exact Jj; try contradiction.
+  - exact Jl.
+  - exact Jr.
+Qed.
+
+Lemma updl_same {A} (f : loc -> A) l a : updl f l a l = a.
+Proof. unfold updl. now rewrite loc_eqb_refl. Qed.
+Lemma updk_same {A} (f : tok -> A) k a : updk f k a k = a.
+Proof. unfold updk. now rewrite tok_eqb_refl. Qed.
+
+Lemma mem_tid_cons t a ts : mem_tid t (a :: ts) = tid_eqb t a || mem_tid t ts.
+Proof. reflexivity. Qed.
+
+Ltac mfacts := repeat match goal with
+  | H : own ?m ?l = _ |- context [own ?m ?l] => rewrite H
+  | H : sent ?m ?k = _ |- context [sent ?m ?k] => rewrite H
+  | H : mem_tid ?t ?ts = true |- context [mem_tid ?t ?ts] => rewrite H
+  end.
+Ltac mgo := repeat first [progress msimp | progress mfacts | rewrite Nat.eqb_refl | rewrite updl_same | rewrite updk_same | rewrite mem_tid_cons | progress unfold owned_by, shareable].
+Ltac start_run :=
+  match goal with |- exists m', mon_run ?m ?E = _ /\ _ => eassert (Hrun : mon_run m E = Some _) end.
+Ltac sstep H := cbn [step repaired v_share_header v_clear_handles v_log_serial app negb] in H.
+Ltac conn_tst :=
+  let i1 := fresh "i1" in let H := fresh "H" in
+  intros i1 H;
+  first [ exact H
+        | revert H; sset; unfold updn;
+          match goal with |- context [Nat.eqb i1 ?i] => destruct (Nat.eqb_spec i1 i) end;
+          [intros; try discriminate; try congruence | auto] ].
+
+Ltac frames s m Jo Hrun :=
+  first [ apply (conn_frame s m _ _ _ (Jo LConn) Hrun); [qsolve | conn_tst]
+        | apply (handles_frame s m _ _ _ (Jo LHandles) Hrun); qsolve
+        | solve [own_fr s m Jo Hrun true]
+        | solve [own_fr s m Jo Hrun false] ].
+
+Lemma ok_RJoinSend n s m s' evs : J s m -> step repaired s (RJoinSend n) = Some (s', evs) ->
+  exists m', mon_run m evs = Some m' /\ J s' m'.
+Proof.
+  intros HJ Hs. sstep Hs.
+  destruct (reader_free s) eqn:Hrf; cbn [andb] in Hs; [|discriminate].
+  destruct (is_mst s n MRead) eqn:Hm; cbn [andb] in Hs; [|discriminate].
+  destruct (joinst s) eqn:Hjs; try discriminate. inv_some Hs.
+  apply is_mst_inv in Hm. apply reader_free_inv in Hrf. destruct Hrf as [Hb [Hlv _]].
+  jdestruct HJ. rewrite Hjs in Jj. destruct Jj as [Jj1 [Jj2 Hsess]]. rewrite Hsess in HSess.
+  pose proof (Jo (LMsg n)) as HM. cbn in HM. rewrite Hm in HM.
+  start_run. { mgo. reflexivity. }
+  eexists. split; [exact Hrun|].
+  constructor.
+  - exact Jb.
+  - exact Jh.
+  - intros l. destruct l as [| | | | | | | |n0|i0|i0|i0]; try solve [frames s m Jo Hrun].
+    + reflexivity.
+    + destruct (Nat.eq_dec n0 n) as [->|Hn].
+      * refine (own_frame s m _ _ (LMsg n) false (Jo (LMsg n)) Hrun _ _); [qsolve|]. cbn. rewrite Hm. discriminate.
+      * neq_facts. frames s m Jo Hrun.
+  - intros i. apply (cmd_frame s m _ _ _ i (Jc i) Hrun); try reflexivity.
+    unfold sess_live. rewrite Hsess. contradiction.
+  - intros i. apply (tmr_frame s m _ _ _ i (Jt i) Hrun); reflexivity.
+  - intros n0. apply (msg_frame s m _ _ _ n0 (Jm n0) Hrun); reflexivity.
+  - sset. cbn [sent updk tok_eqb]. auto.
+  - exact Jl.
+  - sset. intros H. specialize (Jr H). rewrite Hsess in Jr. exact Jr.
+Qed.
+
+Lemma ok_MJoin s m s' evs : J s m -> step repaired s MJoin = Some (s', evs) ->
+  exists m', mon_run m evs = Some m' /\ J s' m'.
+Proof.
+  intros HJ Hs. sstep Hs.
+  destruct (joinst s) as [|n|n|] eqn:Hjs; try discriminate. inv_some Hs.
+  jdestruct HJ. rewrite Hjs in Jj. destruct Jj as [Jj1 [Jj2 Hsess]]. rewrite Hsess in HSess.
+  start_run. { mgo. reflexivity. }
+  eexists. split; [exact Hrun|].
+  constructor.
+  - exact Jb.
+  - exact Jh.
+  - intros l. destruct l as [| | | | | | | |n0|i0|i0|i0]; try solve [frames s m Jo Hrun].
+    cbn. rewrite HSess. reflexivity.
+  - intros i. apply (cmd_frame s m _ _ _ i (Jc i) Hrun); try reflexivity.
+    unfold sess_live. rewrite Hsess. contradiction.
+  - intros i. apply (tmr_frame s m _ _ _ i (Jt i) Hrun); reflexivity.
+  - intros n0. apply (msg_frame s m _ _ _ n0 (Jm n0) Hrun); reflexivity.
+  - sset. exact Jj2.
+  - exact Jl.
+  - sset. auto.
+Qed.
+
+Lemma ok_RJoinAck s m s' evs : J s m -> step repaired s RJoinAck = Some (s', evs) ->
+  exists m', mon_run m evs = Some m' /\ J s' m'.
+Proof.
+  intros HJ Hs. sstep Hs.
+  destruct (joinst s) as [|n|n|] eqn:Hjs; try discriminate. inv_some Hs.
+  jdestruct HJ. rewrite Hjs in Jj.
+  pose proof (Jo (LMsg n)) as HM. cbn in HM. rewrite Jj in HM.
+  start_run. { mgo. reflexivity. }
+  eexists. split; [exact Hrun|].
+  constructor.
+  - exact Jb.
+  - exact Jh.
+  - intros l. destruct l as [| | | | | | | |n0|i0|i0|i0]; try solve [frames s m Jo Hrun].
+    destruct (Nat.eq_dec n0 n) as [->|Hn].
+    + refine (own_frame s m _ _ (LMsg n) false (Jo (LMsg n)) Hrun _ _); [qsolve|]. cbn. rewrite Jj. discriminate.
+    + neq_facts. frames s m Jo Hrun.
+  - intros i. apply (cmd_frame s m _ _ _ i (Jc i) Hrun); try reflexivity. auto.
+  - intros i. apply (tmr_frame s m _ _ _ i (Jt i) Hrun); reflexivity.
+  - intros n0. apply (msg_frame s m _ _ _ n0 (Jm n0) Hrun); reflexivity.
+  - sset. exact I.
+  - exact Jl.
+  - exact Jr.
+Qed.
+
+Lemma ok_RPush n s m s' evs : J s m -> step repaired s (RPush n) = Some (s', evs) ->
+  exists m', mon_run m evs = Some m' /\ J s' m'.
+Proof.
+  intros HJ Hs. sstep Hs.
+  destruct (reader_free s) eqn:Hrf; cbn [andb] in Hs; [|discriminate].
+  destruct (is_mst s n MRead) eqn:Hm; cbn [andb] in Hs; [|discriminate]. inv_some Hs.
+  apply is_mst_inv in Hm. apply reader_free_inv in Hrf. destruct Hrf as [Hb [Hlv Hjn]].
+  jdestruct HJ.
+  pose proof (Jo (LMsg n)) as HM. cbn in HM. rewrite Hm in HM.
+  pose proof (Jm n) as HS. unfold msg_ok in HS. rewrite Hm in HS.
+  start_run. { mgo. reflexivity. }
+  eexists. split; [exact Hrun|].
+  constructor.
+  - exact Jb.
+  - exact Jh.
+  - intros l. destruct l as [| | | | | | | |n0|i0|i0|i0]; try solve [frames s m Jo Hrun].
+    destruct (Nat.eq_dec n0 n) as [->|Hn].
+    + cbn. rewrite updn_same, Nat.eqb_refl. reflexivity.
+    + neq_facts. cbn [own_rel owner_of]. sset. unfold updn. rw_neq. frames s m Jo Hrun.
+  - intros i. apply (cmd_frame s m _ _ _ i (Jc i) Hrun); try reflexivity. auto.
+  - intros i. apply (tmr_frame s m _ _ _ i (Jt i) Hrun); reflexivity.
+  - intros n0. destruct (Nat.eq_dec n0 n) as [->|Hn].
+    + unfold msg_ok. sset. rewrite updn_same. exact I.
+    + neq_facts. apply (msg_frame s m _ _ _ n0 (Jm n0) Hrun); [sset; unfold updn; rw_neq; reflexivity | qsolve].
+  - sset. destruct (joinst s) as [|n0|n0|]; try exact Jj; try contradiction.
+  - exact Jl.
+  - exact Jr.
+Qed.
+
+Lemma ok_RStop s m s' evs : J s m -> step repaired s RStop = Some (s', evs) ->
+  exists m', mon_run m evs = Some m' /\ J s' m'.
+Proof.
+  intros HJ Hs. sstep Hs.
+  destruct (reader_free s) eqn:Hrf; [|discriminate]. inv_some Hs.
+  apply reader_free_inv in Hrf. destruct Hrf as [Hb [Hlv Hjn]].
+  jdestruct HJ. rewrite Hlv in Jl. destruct Jl as [Jl1 [Jl2 Jl3]].
+  start_run. { mgo. reflexivity. }
+  eexists. split; [exact Hrun|].
+  constructor.
+  - exact Jb.
+  - exact Jh.
+  - intros l. destruct l as [| | | | | | | |n0|i0|i0|i0]; solve [frames s m Jo Hrun].
+  - intros i. apply (cmd_frame s m _ _ _ i (Jc i) Hrun); try reflexivity. auto.
+  - intros i. apply (tmr_frame s m _ _ _ i (Jt i) Hrun); reflexivity.
+  - intros n0. apply (msg_frame s m _ _ _ n0 (Jm n0) Hrun); reflexivity.
+  - exact Jj.
+  - sset. cbn [sent updk tok_eqb]. auto.
+  - exact Jr.
+Qed.
+
+Lemma ok_MLeave s m s' evs : J s m -> step repaired s MLeave = Some (s', evs) ->
+  exists m', mon_run m evs = Some m' /\ J s' m'.
+Proof.
+  intros HJ Hs. sstep Hs.
+  destruct (leavest s) eqn:Hlv; try discriminate. inv_some Hs.
+  jdestruct HJ. rewrite Hlv in Jl. destruct Jl as [Jl2 Jl3].
+  start_run. { mgo. reflexivity. }
+  eexists. split; [exact Hrun|].
+  constructor.
+  - exact Jb.
+  - exact Jh.
+  - intros l. destruct l as [| | | | | | | |n0|i0|i0|i0]; solve [frames s m Jo Hrun].
+  - intros i. apply (cmd_frame s m _ _ _ i (Jc i) Hrun); try reflexivity. auto.
+  - intros i. apply (tmr_frame s m _ _ _ i (Jt i) Hrun); reflexivity.
+  - intros n0. apply (msg_frame s m _ _ _ n0 (Jm n0) Hrun); reflexivity.
+  - exact Jj.
+  - sset. cbn [sent updk tok_eqb]. auto.
+  - sset. discriminate.
+Qed.
+
+Lemma ok_RStop2 s m s' evs : J s m -> step repaired s RStop2 = Some (s', evs) ->
+  exists m', mon_run m evs = Some m' /\ J s' m'.
+Proof.
+  intros HJ Hs. sstep Hs.
+  destruct (leavest s) eqn:Hlv; try discriminate. inv_some Hs.
+  jdestruct HJ. rewrite Hlv in Jl.
+  start_run. { mgo. reflexivity. }
+  eexists. split; [exact Hrun|].
+  constructor.
+  - exact Jb.
+  - exact Jh.
+  - intros l. destruct l as [| | | | | | | |n0|i0|i0|i0]; solve [frames s m Jo Hrun].
+  - intros i. apply (cmd_frame s m _ _ _ i (Jc i) Hrun); try reflexivity. auto.
+  - intros i. apply (tmr_frame s m _ _ _ i (Jt i) Hrun); reflexivity.
+  - intros n0. apply (msg_frame s m _ _ _ n0 (Jm n0) Hrun); reflexivity.
+  - exact Jj.
+  - sset. exact I.
+  - exact Jr.
+Qed.
+
+(* goal own_rel s' m' l (an equation): through owner_of s l *)
+Ltac via_old s m Jo Hrun :=
+  match goal with
+  | |- own_rel ?s' ?m' ?l => change (own m' l = owner_of s' l); transitivity (owner_of s l);
+       [first [solve [own_fr s m Jo Hrun true] | solve [own_fr s m Jo Hrun false]] | symmetry]
+  end.
+
+(* owner_of (LMsg n) only looks at whether cst i is CDone *)
+Lemma owner_msg_cst s s' n :
+  mst s' n = mst s n ->
+  (forall j, mst s n = MC j ->
+     match cst s' j, cst s j with CDone _, CDone _ => True | CDone _, _ | _, CDone _ => False | _, _ => True end) ->
+  owner_of s' (LMsg n) = owner_of s (LMsg n).
+Proof.
+  intros Em H. cbn [owner_of]. rewrite Em. destruct (mst s n) as [| | | |j] eqn:E; try reflexivity.
+  specialize (H j eq_refl). destruct (cst s' j), (cst s j); try reflexivity; contradiction.
+Qed.
+
+Lemma ok_CCall i s m s' evs : J s m -> step repaired s (CCall i) = Some (s', evs) ->
+  exists m', mon_run m evs = Some m' /\ J s' m'.
+Proof.
+  intros HJ Hs. sstep Hs.
+  destruct (booted s) eqn:Hb; cbn [andb] in Hs; [|discriminate].
+  destruct (cst s i) eqn:Hci; try discriminate. inv_some Hs.
+  jdestruct HJ.
+  pose proof (Jc i) as Hc. unfold cmd_ok in Hc. rewrite Hci in Hc. destruct Hc as [Hc1 [Hc2 [Hc3 Hti]]].
+  pose proof (Jo (LAct i)) as HA. cbn in HA. rewrite Hci in HA.
+  start_run. { mgo. reflexivity. }
+  eexists. split; [exact Hrun|].
+  constructor.
+  - exact Jb.
+  - exact Jh.
+  - intros l. destruct l as [| | | | | | | |n0|i0|i0|i0]; try solve [frames s m Jo Hrun].
+    + exists (TCaller i :: tsC). split; [cbn; rewrite HC; reflexivity|].
+      rewrite !mem_tid_cons, HCr, HCw, HCm, HCM. cbn [tid_eqb orb]. repeat split.
+      intros i1 H. rewrite mem_tid_cons, (HCt i1 H). apply orb_true_r.
+    + via_old s m Jo Hrun. apply owner_msg_cst; [reflexivity|]. intros j _. sset. unfold updn.
+      destruct (Nat.eqb_spec j i) as [->|]; [rewrite Hci; exact I | destruct (cst s j); exact I].
+    + destruct (Nat.eq_dec i0 i) as [->|Hn].
+      * cbn. rewrite updn_same, Nat.eqb_refl. reflexivity.
+      * neq_facts. cbn [own_rel owner_of]. sset. unfold updn. rw_neq. frames s m Jo Hrun.
+    + destruct (Nat.eq_dec i0 i) as [->|Hn].
+      * via_old s m Jo Hrun. cbn. rewrite Hti. reflexivity.
+      * neq_facts. cbn [own_rel owner_of]. sset. unfold updn. rw_neq. frames s m Jo Hrun.
+    + destruct (Nat.eq_dec i0 i) as [->|Hn].
+      * via_old s m Jo Hrun. cbn. rewrite updn_same, Hci. reflexivity.
+      * neq_facts. cbn [own_rel owner_of]. sset. unfold updn. rw_neq. frames s m Jo Hrun.
+  - intros i0. destruct (Nat.eq_dec i0 i) as [->|Hn].
+    + unfold cmd_ok. sset. rewrite updn_same. cbn [sent updk tok_eqb]. auto.
+    + neq_facts. apply (cmd_frame s m _ _ _ i0 (Jc i0) Hrun); try qsolve; auto.
+      sset. unfold updn. rw_neq. reflexivity.
+  - intros i0. destruct (Nat.eq_dec i0 i) as [->|Hn].
+    + unfold tmr_ok. sset. rewrite Hti. pose proof (Jt i) as H0. unfold tmr_ok in H0. rewrite Hti in H0. exact H0.
+    + neq_facts. apply (tmr_frame s m _ _ _ i0 (Jt i0) Hrun); try qsolve. sset. unfold updn. rw_neq. reflexivity.
+  - intros n0. apply (msg_frame s m _ _ _ n0 (Jm n0) Hrun); reflexivity.
+  - exact Jj.
+  - exact Jl.
+  - exact Jr.
+Qed.
+
+Ltac fin := cbn; rewrite ?updn_same, ?Nat.eqb_refl, ?loc_eqb_refl, ?updl_same; cbn;
+            rewrite ?Nat.eqb_refl, ?loc_eqb_refl; cbn; try reflexivity.
+
+Ltac other_id_own s m Jo Hrun :=
+  neq_facts; cbn [own_rel owner_of]; sset; unfold updn; rw_neq; frames s m Jo Hrun.
+
+Lemma ok_MWrite i s m s' evs : J s m -> step repaired s (MWrite i) = Some (s', evs) ->
+  exists m', mon_run m evs = Some m' /\ J s' m'.
+Proof.
+  intros HJ Hs. sstep Hs.
+  destruct (cst s i) eqn:Hci; try discriminate.
+  jdestruct HJ.
+  pose proof (Jc i) as Hc. unfold cmd_ok in Hc. rewrite Hci in Hc. destruct Hc as [Hc2 [Hc3 Hti]].
+  pose proof (Jo (LAct i)) as HA. cbn in HA. rewrite Hci in HA.
+  pose proof (Jo (LFin i)) as HF. cbn in HF. rewrite Hci in HF.
+  pose proof (Jt i) as Hti2. unfold tmr_ok in Hti2. rewrite Hti in Hti2.
+  assert (Hmsg : forall n0, owner_of (set_cst s i CActQ) (LMsg n0) = owner_of s (LMsg n0)).
+  { intros n0. apply owner_msg_cst; [reflexivity|]. intros j _. sset. unfold updn.
+    destruct (Nat.eqb_spec j i) as [->|]; [rewrite Hci; exact I | destruct (cst s j); exact I]. }
+  assert (Hmsg2 : forall n0 l, owner_of (set_cst s i (CRepl l)) (LMsg n0) = owner_of s (LMsg n0)).
+  { intros n0 l. apply owner_msg_cst; [reflexivity|]. intros j _. sset. unfold updn.
+    destruct (Nat.eqb_spec j i) as [->|]; [rewrite Hci; exact I | destruct (cst s j); exact I]. }
+  destruct (registered s) eqn:Hreg.
+  - specialize (Jr eq_refl).
+    destruct (sess s) as [| | |i'|] eqn:Hsess; try contradiction; cbn [negb] in Hs; inv_some Hs; rewrite ?Jh.
+    + (* the first command routed: the session header goes with it *)
+      start_run. { mgo. reflexivity. }
+      eexists. split; [exact Hrun|].
+      constructor.
+      * exact Jb.
+      * exact Jh.
+      * intros l. destruct l as [| | | | | | | |n0|i0|i0|i0]; try solve [frames s m Jo Hrun].
+        -- reflexivity.
+        -- via_old s m Jo Hrun. exact (Hmsg n0).
+        -- destruct (Nat.eq_dec i0 i) as [->|Hn]; [|other_id_own s m Jo Hrun].
+           cbn. rewrite updn_same, Nat.eqb_refl. reflexivity.
+        -- destruct (Nat.eq_dec i0 i) as [->|Hn]; [|other_id_own s m Jo Hrun].
+           via_old s m Jo Hrun. cbn. rewrite Hti. reflexivity.
+        -- destruct (Nat.eq_dec i0 i) as [->|Hn]; [|other_id_own s m Jo Hrun].
+           via_old s m Jo Hrun. cbn. rewrite updn_same, Hci. reflexivity.
+      * intros i0. destruct (Nat.eq_dec i0 i) as [->|Hn].
+        -- unfold cmd_ok. sset. rewrite updn_same. cbn [sent updk tok_eqb]. auto.
+        -- neq_facts. apply (cmd_frame s m _ _ _ i0 (Jc i0) Hrun); try qsolve;
+             try (sset; unfold updn; rw_neq; reflexivity); try (intros _; exact I).
+      * intros i0. destruct (Nat.eq_dec i0 i) as [->|Hn].
+        -- unfold tmr_ok. sset. rewrite Hti. exact Hti2.
+        -- neq_facts. apply (tmr_frame s m _ _ _ i0 (Jt i0) Hrun); try qsolve. sset. unfold updn. rw_neq. reflexivity.
+      * intros n0. apply (msg_frame s m _ _ _ n0 (Jm n0) Hrun); reflexivity.
+      * sset. destruct (joinst s); try exact Jj; destruct Jj as [_ [_ E]]; congruence.
+      * exact Jl.
+      * sset. auto.
+    + (* a later command *)
+      start_run. { mgo. reflexivity. }
+      eexists. split; [exact Hrun|].
+      constructor.
+      * exact Jb.
+      * exact Jh.
+      * intros l. destruct l as [| | | | | | | |n0|i0|i0|i0]; try solve [frames s m Jo Hrun].
+        -- via_old s m Jo Hrun. exact (Hmsg n0).
+        -- destruct (Nat.eq_dec i0 i) as [->|Hn]; [|other_id_own s m Jo Hrun].
+           cbn. rewrite updn_same, Nat.eqb_refl. reflexivity.
+        -- destruct (Nat.eq_dec i0 i) as [->|Hn]; [|other_id_own s m Jo Hrun].
+           via_old s m Jo Hrun. cbn. rewrite Hti. reflexivity.
+        -- destruct (Nat.eq_dec i0 i) as [->|Hn]; [|other_id_own s m Jo Hrun].
+           via_old s m Jo Hrun. cbn. rewrite updn_same, Hci. reflexivity.
+      * intros i0. destruct (Nat.eq_dec i0 i) as [->|Hn].
+        -- unfold cmd_ok. sset. rewrite updn_same, Hsess. cbn [sent updk tok_eqb]. auto.
+        -- neq_facts. apply (cmd_frame s m _ _ _ i0 (Jc i0) Hrun); try qsolve; auto.
+           sset. unfold updn. rw_neq. reflexivity.
+      * intros i0. destruct (Nat.eq_dec i0 i) as [->|Hn].
+        -- unfold tmr_ok. sset. rewrite Hti. exact Hti2.
+        -- neq_facts. apply (tmr_frame s m _ _ _ i0 (Jt i0) Hrun); try qsolve. sset. unfold updn. rw_neq. reflexivity.
+      * intros n0. apply (msg_frame s m _ _ _ n0 (Jm n0) Hrun); reflexivity.
+      * sset. rewrite Hsess. exact Jj.
+      * exact Jl.
+      * sset. rewrite Hsess. auto.
+    + start_run. { mgo. reflexivity. }
+      eexists. split; [exact Hrun|].
+      constructor.
+      * exact Jb.
+      * exact Jh.
+      * intros l. destruct l as [| | | | | | | |n0|i0|i0|i0]; try solve [frames s m Jo Hrun].
+        -- via_old s m Jo Hrun. exact (Hmsg n0).
+        -- destruct (Nat.eq_dec i0 i) as [->|Hn]; [|other_id_own s m Jo Hrun].
+           cbn. rewrite updn_same, Nat.eqb_refl. reflexivity.
+        -- destruct (Nat.eq_dec i0 i) as [->|Hn]; [|other_id_own s m Jo Hrun].
+           via_old s m Jo Hrun. cbn. rewrite Hti. reflexivity.
+        -- destruct (Nat.eq_dec i0 i) as [->|Hn]; [|other_id_own s m Jo Hrun].
+           via_old s m Jo Hrun. cbn. rewrite updn_same, Hci. reflexivity.
+      * intros i0. destruct (Nat.eq_dec i0 i) as [->|Hn].
+        -- unfold cmd_ok. sset. rewrite updn_same, Hsess. cbn [sent updk tok_eqb]. auto.
+        -- neq_facts. apply (cmd_frame s m _ _ _ i0 (Jc i0) Hrun); try qsolve; auto.
+           sset. unfold updn. rw_neq. reflexivity.
+      * intros i0. destruct (Nat.eq_dec i0 i) as [->|Hn].
+        -- unfold tmr_ok. sset. rewrite Hti. exact Hti2.
+        -- neq_facts. apply (tmr_frame s m _ _ _ i0 (Jt i0) Hrun); try qsolve. sset. unfold updn. rw_neq. reflexivity.
+      * intros n0. apply (msg_frame s m _ _ _ n0 (Jm n0) Hrun); reflexivity.
+      * sset. rewrite Hsess. exact Jj.
+      * exact Jl.
+      * sset. rewrite Hsess. auto.
+  - (* the key is not online: the manager answers *)
+    inv_some Hs.
+    start_run. { mgo. reflexivity. }
+    eexists. split; [exact Hrun|].
+    constructor.
+    + exact Jb.
+    + exact Jh.
+    + intros l. destruct l as [| | | | | | | |n0|i0|i0|i0]; try solve [frames s m Jo Hrun].
+      * via_old s m Jo Hrun. exact (Hmsg2 n0 _).
+      * destruct (Nat.eq_dec i0 i) as [->|Hn]; [|other_id_own s m Jo Hrun].
+        fin.
+      * destruct (Nat.eq_dec i0 i) as [->|Hn]; [|other_id_own s m Jo Hrun].
+        via_old s m Jo Hrun. cbn. rewrite Hti. reflexivity.
+      * destruct (Nat.eq_dec i0 i) as [->|Hn]; [|other_id_own s m Jo Hrun].
+        fin.
+    + intros i0. destruct (Nat.eq_dec i0 i) as [->|Hn].
+      * unfold cmd_ok. sset. rewrite updn_same. fin.
+      * neq_facts. apply (cmd_frame s m _ _ _ i0 (Jc i0) Hrun); try qsolve; auto.
+        sset. unfold updn. rw_neq. reflexivity.
+    + intros i0. destruct (Nat.eq_dec i0 i) as [->|Hn].
+      * unfold tmr_ok. sset. rewrite Hti. exact Hti2.
+      * neq_facts. apply (tmr_frame s m _ _ _ i0 (Jt i0) Hrun); try qsolve. sset. unfold updn. rw_neq. reflexivity.
+    + intros n0. apply (msg_frame s m _ _ _ n0 (Jm n0) Hrun); reflexivity.
+    + exact Jj.
+    + exact Jl.
+    + sset. rewrite Hreg. discriminate.
+Qed.
+
+Ltac stage_cases :=
+  repeat match goal with
+  | |- context [match mst ?s ?n with _ => _ end] => destruct (mst s n) eqn:?
+  | |- context [match cst ?s ?n with _ => _ end] => destruct (cst s n) eqn:?
+  | |- context [match tst ?s ?n with _ => _ end] => destruct (tst s n) eqn:?
+  | |- context [match sess ?s with _ => _ end] => destruct (sess s) eqn:?
+  | |- context [if loc_eqb ?a ?b then _ else _] => destruct (loc_eqb a b) eqn:?
+  end.
+
+Lemma ok_CRet i s m s' evs : J s m -> step repaired s (CRet i) = Some (s', evs) ->
+  exists m', mon_run m evs = Some m' /\ J s' m'.
+Proof.
+  intros HJ Hs. sstep Hs.
+  destruct (cst s i) as [| | | |l|l] eqn:Hci; try discriminate.
+  destruct (booted s) eqn:Hb; [|discriminate]. inv_some Hs.
+  jdestruct HJ.
+  pose proof (Jc i) as Hc. unfold cmd_ok in Hc. rewrite Hci in Hc.
+  pose proof (Jo (LAct i)) as HA. cbn in HA. rewrite Hci in HA.
+  start_run. { mgo. reflexivity. }
+  eexists. split; [exact Hrun|].
+  constructor.
+  - exact Jb.
+  - exact Jh.
+  - intros l0. pose proof (Jo l0) as Hl. destruct l0 as [| | | | | | | |n0|i0|i0|i0]; cbn [own_rel owner_of] in Hl |- *.
+    + exists tsC. cbn [own]. rewrite HC. repeat split; auto.
+    + exists tsH. cbn [own]. rewrite HH. auto.
+    + cbn [own]. rewrite Hl. reflexivity.
+    + cbn [own]. rewrite Hl. reflexivity.
+    + cbn [own]. rewrite Hl. reflexivity.
+    + cbn [own]. rewrite Hl. reflexivity.
+    + cbn [own]. rewrite Hl. reflexivity.
+    + cbn [own]. rewrite Hl. sset. destruct (sess s); reflexivity.
+    + cbn [own]. rewrite Hl. sset. destruct (mst s n0) as [| | | |j]; try reflexivity.
+      unfold updn. destruct (Nat.eqb_spec j i) as [->|Hn].
+      * rewrite Hci. cbn. rewrite Nat.eqb_refl. reflexivity.
+      * neq_facts. destruct (cst s j); cbn; rw_neq; reflexivity.
+    + cbn [own]. rewrite Hl. sset. unfold updn. destruct (Nat.eqb_spec i0 i) as [->|Hn].
+      * rewrite Hci. cbn. rewrite Nat.eqb_refl. reflexivity.
+      * neq_facts. destruct (cst s i0); cbn; rw_neq; reflexivity.
+    + cbn [own]. rewrite Hl. sset. unfold updn. destruct (Nat.eqb_spec i0 i) as [->|Hn].
+      * rewrite Hci. destruct (tst s i); cbn; try reflexivity;
+          destruct (loc_eqb l (LReply i)); cbn; rewrite ?Nat.eqb_refl; reflexivity.
+      * neq_facts. destruct (tst s i0); cbn; try reflexivity;
+          destruct (cst s i0) as [| | | |l1|l1]; cbn; try reflexivity;
+          destruct (loc_eqb l1 (LReply i0)); cbn; rw_neq; reflexivity.
+    + cbn [own]. rewrite Hl. sset. unfold updn. destruct (Nat.eqb_spec i0 i) as [->|Hn].
+      * rewrite Hci. destruct (loc_eqb l (LFin i)); cbn; rewrite ?Nat.eqb_refl; reflexivity.
+      * neq_facts. destruct (cst s i0) as [| | | |l1|l1]; cbn; try reflexivity;
+          destruct (loc_eqb l1 (LFin i0)); cbn; rw_neq; reflexivity.
+  - intros i0. destruct (Nat.eq_dec i0 i) as [->|Hn].
+    + unfold cmd_ok. sset. rewrite updn_same. exact I.
+    + neq_facts. apply (cmd_frame s m _ _ _ i0 (Jc i0) Hrun); try qsolve; auto.
+      sset. unfold updn. rw_neq. reflexivity.
+  - intros i0. destruct (Nat.eq_dec i0 i) as [->|Hn].
+    + pose proof (Jt i) as H0. unfold tmr_ok, not_reply in *. sset. rewrite updn_same. rewrite Hci in H0. exact H0.
+    + neq_facts. apply (tmr_frame s m _ _ _ i0 (Jt i0) Hrun); try qsolve. sset. unfold updn. rw_neq. reflexivity.
+  - intros n0. apply (msg_frame s m _ _ _ n0 (Jm n0) Hrun); reflexivity.
+  - exact Jj.
+  - exact Jl.
+  - exact Jr.
+Qed.
+
+Lemma wact_pre i s m : J s m -> wrun s = true -> sess_ok s i = true -> cst s i = CActQ ->
+  sent m (KReply i) = false /\ tst s i = TNone /\ sent m (KCpl i) = false /\
+  own m (LAct i) = OToken (KAct i) /\ own m (LReply i) = OFresh /\ own m (LFin i) = OFresh /\
+  (sess s = SW \/ sess s = SAct i).
+Proof.
+  intros HJ Hw Hso Hci. destruct HJ as [Jb Jh Jo Jc Jt Jm Jj Jl Jr].
+  pose proof (Jc i) as Hc. unfold cmd_ok in Hc. rewrite Hci in Hc. destruct Hc as [Hc3 [Hti Hlive]].
+  pose proof (Jt i) as Ht. unfold tmr_ok in Ht. rewrite Hti in Ht.
+  pose proof (Jo (LAct i)) as HA. cbn in HA. rewrite Hci in HA.
+  pose proof (Jo (LReply i)) as HR. cbn in HR. rewrite Hti in HR.
+  pose proof (Jo (LFin i)) as HF. cbn in HF. rewrite Hci in HF.
+  repeat split; auto.
+  unfold sess_ok in Hso. destruct (sess s) as [| | |i'|]; try contradiction; auto.
+  right. apply Nat.eqb_eq in Hso. now subst.
+Qed.
+
+Lemma owner_msg_same s s' n :
+  mst s' n = mst s n -> (forall j, mst s n = MC j -> cst s' j = cst s j) ->
+  owner_of s' (LMsg n) = owner_of s (LMsg n).
+Proof.
+  intros Em H. cbn [owner_of]. rewrite Em. destruct (mst s n) as [| | | |j] eqn:E; try reflexivity.
+  rewrite (H j eq_refl). reflexivity.
+Qed.
+
+Ltac cmd_others s m Jc Hrun i0 :=
+  neq_facts; apply (cmd_frame s m _ _ _ i0 (Jc i0) Hrun); try qsolve;
+  try (sset; unfold updn; rw_neq; reflexivity); try (intros _; exact I); auto.
+Ltac tmr_others s m Jt Hrun i0 :=
+  neq_facts; apply (tmr_frame s m _ _ _ i0 (Jt i0) Hrun); try qsolve;
+  try (sset; unfold updn; rw_neq; reflexivity).
+Ltac msg_others s m Jm Hrun n0 :=
+  neq_facts; apply (msg_frame s m _ _ _ n0 (Jm n0) Hrun); try qsolve;
+  try (sset; unfold updn; rw_neq; reflexivity).
+
+Lemma ok_WAct i wok timer s m s' evs : J s m -> step repaired s (WAct i wok timer) = Some (s', evs) ->
+  exists m', mon_run m evs = Some m' /\ J s' m'.
+Proof.
+  intros HJ Hs. sstep Hs.
+  destruct (wrun s) eqn:Hw; cbn [andb] in Hs; [|discriminate].
+  destruct (sess_ok s i) eqn:Hso; cbn [andb] in Hs; [|discriminate].
+  destruct (cst s i) eqn:Hci; try discriminate.
+  destruct (wact_pre i s m HJ Hw Hso Hci) as [Hc3 [Hti [Hcpl [HA [HR [HF Hsess]]]]]].
+  jdestruct HJ.
+  assert (Hmsg : forall x n0, (forall l, x <> CDone l) -> owner_of (set_cst s i x) (LMsg n0) = owner_of s (LMsg n0)).
+  { intros x n0 Hx. apply owner_msg_cst; [reflexivity|]. intros j _. sset. unfold updn.
+    destruct (Nat.eqb_spec j i) as [->|]; [rewrite Hci; destruct x; try exact I; exfalso; eapply Hx; reflexivity | destruct (cst s j); exact I]. }
+  unfold sess_recv in Hs.
+  destruct Hsess as [Hsess|Hsess]; rewrite Hsess in Hs, HSess; rewrite ?Nat.eqb_refl in Hs.
+  - (* session header: SW *)
+    destruct wok; [destruct timer|]; inv_some Hs; rewrite ?Jh.
+    + start_run. { mgo. reflexivity. }
+      eexists. split; [exact Hrun|].
+      constructor.
+      * exact Jb.
+      * exact Jh.
+      * intros l. destruct l as [| | | | | | | |n0|i0|i0|i0]; try solve [frames s m Jo Hrun].
+        -- exists (TTimer i :: tsC). split; [cbn; rewrite HC; reflexivity|].
+           rewrite !mem_tid_cons, HCr, HCw, HCm, HCM. cbn [tid_eqb orb]. repeat split.
+           intros i1. sset. unfold updn. rewrite mem_tid_cons. cbn [tid_eqb].
+           destruct (Nat.eqb_spec i1 i) as [->|Hn]; [reflexivity|].
+           intros H. rewrite (HCt i1 H). apply orb_true_r.
+        -- cbn. rewrite HSess. rewrite ?Hsess. fin.
+        -- via_old s m Jo Hrun. apply (Hmsg COut n0). discriminate.
+        -- destruct (Nat.eq_dec i0 i) as [->|Hn]; [|other_id_own s m Jo Hrun]. cbn. rewrite HA. fin.
+        -- destruct (Nat.eq_dec i0 i) as [->|Hn]; [|other_id_own s m Jo Hrun]. fin.
+        -- destruct (Nat.eq_dec i0 i) as [->|Hn]; [|other_id_own s m Jo Hrun].
+           via_old s m Jo Hrun. cbn. rewrite updn_same, Hci. fin.
+      * intros i0. destruct (Nat.eq_dec i0 i) as [->|Hn]; [|cmd_others s m Jc Hrun i0].
+        unfold cmd_ok. sset. rewrite updn_same. exact Hc3.
+      * intros i0. destruct (Nat.eq_dec i0 i) as [->|Hn]; [|tmr_others s m Jt Hrun i0].
+        unfold tmr_ok, not_reply. sset. rewrite !updn_same. split; [exact Hcpl | exact I].
+      * intros n0. apply (msg_frame s m _ _ _ n0 (Jm n0) Hrun); reflexivity.
+      * exact Jj.
+      * exact Jl.
+      * exact Jr.
+    + start_run. { mgo. reflexivity. }
+      eexists. split; [exact Hrun|].
+      constructor.
+      * exact Jb.
+      * exact Jh.
+      * intros l. destruct l as [| | | | | | | |n0|i0|i0|i0]; try solve [frames s m Jo Hrun].
+        -- cbn. rewrite HSess. rewrite ?Hsess. fin.
+        -- via_old s m Jo Hrun. apply (Hmsg COut n0). discriminate.
+        -- destruct (Nat.eq_dec i0 i) as [->|Hn]; [|other_id_own s m Jo Hrun]. cbn. rewrite HA. fin.
+        -- destruct (Nat.eq_dec i0 i) as [->|Hn]; [|other_id_own s m Jo Hrun]. fin.
+        -- destruct (Nat.eq_dec i0 i) as [->|Hn]; [|other_id_own s m Jo Hrun].
+           via_old s m Jo Hrun. cbn. rewrite updn_same, Hci. fin.
+      * intros i0. destruct (Nat.eq_dec i0 i) as [->|Hn]; [|cmd_others s m Jc Hrun i0].
+        unfold cmd_ok. sset. rewrite updn_same. exact Hc3.
+      * intros i0. destruct (Nat.eq_dec i0 i) as [->|Hn]; [|tmr_others s m Jt Hrun i0].
+        unfold tmr_ok, not_reply. sset. rewrite !updn_same. exact Hcpl.
+      * intros n0. apply (msg_frame s m _ _ _ n0 (Jm n0) Hrun); reflexivity.
+      * exact Jj.
+      * exact Jl.
+      * exact Jr.
+    + start_run. { mgo. reflexivity. }
+      eexists. split; [exact Hrun|].
+      constructor.
+      * exact Jb.
+      * exact Jh.
+      * intros l. destruct l as [| | | | | | | |n0|i0|i0|i0]; try solve [frames s m Jo Hrun].
+        -- cbn. rewrite HSess. rewrite ?Hsess. fin.
+        -- via_old s m Jo Hrun. apply (Hmsg (CRepl (LReply i)) n0). discriminate.
+        -- destruct (Nat.eq_dec i0 i) as [->|Hn]; [|other_id_own s m Jo Hrun]. cbn. rewrite HA. fin.
+        -- destruct (Nat.eq_dec i0 i) as [->|Hn]; [|other_id_own s m Jo Hrun]. fin.
+        -- destruct (Nat.eq_dec i0 i) as [->|Hn]; [|other_id_own s m Jo Hrun].
+           via_old s m Jo Hrun. cbn. rewrite updn_same, Hci. fin.
+      * intros i0. destruct (Nat.eq_dec i0 i) as [->|Hn]; [|cmd_others s m Jc Hrun i0].
+        unfold cmd_ok. sset. rewrite updn_same. fin.
+      * intros i0. destruct (Nat.eq_dec i0 i) as [->|Hn]; [|tmr_others s m Jt Hrun i0].
+        unfold tmr_ok, not_reply. sset. rewrite !updn_same. exact Hcpl.
+      * intros n0. apply (msg_frame s m _ _ _ n0 (Jm n0) Hrun); reflexivity.
+      * exact Jj.
+      * exact Jl.
+      * exact Jr.
+  - (* session header: SAct *)
+    destruct wok; [destruct timer|]; inv_some Hs; rewrite ?Jh.
+    + start_run. { mgo. reflexivity. }
+      eexists. split; [exact Hrun|].
+      constructor.
+      * exact Jb.
+      * exact Jh.
+      * intros l. destruct l as [| | | | | | | |n0|i0|i0|i0]; try solve [frames s m Jo Hrun].
+        -- exists (TTimer i :: tsC). split; [cbn; rewrite HC; reflexivity|].
+           rewrite !mem_tid_cons, HCr, HCw, HCm, HCM. cbn [tid_eqb orb]. repeat split.
+           intros i1. sset. unfold updn. rewrite mem_tid_cons. cbn [tid_eqb].
+           destruct (Nat.eqb_spec i1 i) as [->|Hn]; [reflexivity|].
+           intros H. rewrite (HCt i1 H). apply orb_true_r.
+        -- cbn. rewrite HSess. rewrite ?Hsess. fin.
+        -- via_old s m Jo Hrun. apply (Hmsg COut n0). discriminate.
+        -- destruct (Nat.eq_dec i0 i) as [->|Hn]; [|other_id_own s m Jo Hrun]. cbn. rewrite HA. fin.
+        -- destruct (Nat.eq_dec i0 i) as [->|Hn]; [|other_id_own s m Jo Hrun]. fin.
+        -- destruct (Nat.eq_dec i0 i) as [->|Hn]; [|other_id_own s m Jo Hrun].
+           via_old s m Jo Hrun. cbn. rewrite updn_same, Hci. fin.
+      * intros i0. destruct (Nat.eq_dec i0 i) as [->|Hn]; [|cmd_others s m Jc Hrun i0].
+        unfold cmd_ok. sset. rewrite updn_same. exact Hc3.
+      * intros i0. destruct (Nat.eq_dec i0 i) as [->|Hn]; [|tmr_others s m Jt Hrun i0].
+        unfold tmr_ok, not_reply. sset. rewrite !updn_same. split; [exact Hcpl | exact I].
+      * intros n0. apply (msg_frame s m _ _ _ n0 (Jm n0) Hrun); reflexivity.
+      * sset. destruct (joinst s); try exact Jj; destruct Jj as [_ [_ E]]; rewrite Hsess in E; discriminate.
+      * exact Jl.
+      * sset. auto.
+    + start_run. { mgo. reflexivity. }
+      eexists. split; [exact Hrun|].
+      constructor.
+      * exact Jb.
+      * exact Jh.
+      * intros l. destruct l as [| | | | | | | |n0|i0|i0|i0]; try solve [frames s m Jo Hrun].
+        -- cbn. rewrite HSess. rewrite ?Hsess. fin.
+        -- via_old s m Jo Hrun. apply (Hmsg COut n0). discriminate.
+        -- destruct (Nat.eq_dec i0 i) as [->|Hn]; [|other_id_own s m Jo Hrun]. cbn. rewrite HA. fin.
+        -- destruct (Nat.eq_dec i0 i) as [->|Hn]; [|other_id_own s m Jo Hrun]. fin.
+        -- destruct (Nat.eq_dec i0 i) as [->|Hn]; [|other_id_own s m Jo Hrun].
+           via_old s m Jo Hrun. cbn. rewrite updn_same, Hci. fin.
+      * intros i0. destruct (Nat.eq_dec i0 i) as [->|Hn]; [|cmd_others s m Jc Hrun i0].
+        unfold cmd_ok. sset. rewrite updn_same. exact Hc3.
+      * intros i0. destruct (Nat.eq_dec i0 i) as [->|Hn]; [|tmr_others s m Jt Hrun i0].
+        unfold tmr_ok, not_reply. sset. rewrite !updn_same. exact Hcpl.
+      * intros n0. apply (msg_frame s m _ _ _ n0 (Jm n0) Hrun); reflexivity.
+      * sset. destruct (joinst s); try exact Jj; destruct Jj as [_ [_ E]]; rewrite Hsess in E; discriminate.
+      * exact Jl.
+      * sset. auto.
+    + start_run. { mgo. reflexivity. }
+      eexists. split; [exact Hrun|].
+      constructor.
+      * exact Jb.
+      * exact Jh.
+      * intros l. destruct l as [| | | | | | | |n0|i0|i0|i0]; try solve [frames s m Jo Hrun].
+        -- cbn. rewrite HSess. rewrite ?Hsess. fin.
+        -- via_old s m Jo Hrun. apply (Hmsg (CRepl (LReply i)) n0). discriminate.
+        -- destruct (Nat.eq_dec i0 i) as [->|Hn]; [|other_id_own s m Jo Hrun]. cbn. rewrite HA. fin.
+        -- destruct (Nat.eq_dec i0 i) as [->|Hn]; [|other_id_own s m Jo Hrun]. fin.
+        -- destruct (Nat.eq_dec i0 i) as [->|Hn]; [|other_id_own s m Jo Hrun].
+           via_old s m Jo Hrun. cbn. rewrite updn_same, Hci. fin.
+      * intros i0. destruct (Nat.eq_dec i0 i) as [->|Hn]; [|cmd_others s m Jc Hrun i0].
+        unfold cmd_ok. sset. rewrite updn_same. fin.
+      * intros i0. destruct (Nat.eq_dec i0 i) as [->|Hn]; [|tmr_others s m Jt Hrun i0].
+        unfold tmr_ok, not_reply. sset. rewrite !updn_same. exact Hcpl.
+      * intros n0. apply (msg_frame s m _ _ _ n0 (Jm n0) Hrun); reflexivity.
+      * sset. destruct (joinst s); try exact Jj; destruct Jj as [_ [_ E]]; rewrite Hsess in E; discriminate.
+      * exact Jl.
+      * sset. auto.
+Qed.
+
+Lemma cmd_frame2 s m s' m' evs i :
+  cmd_ok s m i -> mon_run m evs = Some m' ->
+  cst s' i = cst s i -> tst s i <> TNone ->
+  forallb (not_send (KReply i)) evs = true -> forallb (not_recv (KReply i)) evs = true ->
+  cmd_ok s' m' i.
+Proof.
+  intros Hc Hr Ec Et H3 H4. unfold cmd_ok in *. rewrite Ec.
+  rewrite (frame_sent evs m m' _ Hr H3).
+  destruct (cst s i) as [| | | |l|l]; try exact Hc.
+  - destruct Hc as [_ [_ [_ E]]]. contradiction.
+  - destruct Hc as [_ [_ E]]. contradiction.
+  - destruct Hc as [_ [E _]]. contradiction.
+  - exact (tok_stable evs m m' l _ Hr H4 Hc).
+Qed.
+
+Lemma ok_TFire i stop s m s' evs : J s m -> step repaired s (TFire i stop) = Some (s', evs) ->
+  exists m', mon_run m evs = Some m' /\ J s' m'.
+Proof.
+  intros HJ Hs. sstep Hs.
+  destruct (tst s i) eqn:Hti; try discriminate.
+  jdestruct HJ.
+  pose proof (Jt i) as Ht. unfold tmr_ok in Ht. rewrite Hti in Ht. destruct Ht as [Hcpl Hnr].
+  pose proof (Jo (LReply i)) as HR. cbn in HR. rewrite Hti in HR.
+  pose proof (HCt i Hti) as HCi.
+  assert (Hne : tst s i <> TNone) by (rewrite Hti; discriminate).
+  destruct stop.
+  - destruct (leavest s) eqn:Hlv; try discriminate. inv_some Hs.
+    start_run. { mgo. reflexivity. }
+    eexists. split; [exact Hrun|].
+    constructor.
+    + exact Jb.
+    + exact Jh.
+    + intros l. destruct l as [| | | | | | | |n0|i0|i0|i0]; try solve [frames s m Jo Hrun].
+      destruct (Nat.eq_dec i0 i) as [->|Hn]; [|other_id_own s m Jo Hrun]. cbn. rewrite HR. fin.
+    + intros i0. destruct (Nat.eq_dec i0 i) as [->|Hn]; [|cmd_others s m Jc Hrun i0].
+      apply (cmd_frame2 s m _ _ _ i (Jc i) Hrun); try qsolve. exact Hne.
+    + intros i0. destruct (Nat.eq_dec i0 i) as [->|Hn]; [|tmr_others s m Jt Hrun i0].
+      unfold tmr_ok. sset. rewrite updn_same. exact Hnr.
+    + intros n0. apply (msg_frame s m _ _ _ n0 (Jm n0) Hrun); reflexivity.
+    + exact Jj.
+    + sset. rewrite Hlv. exact I.
+    + exact Jr.
+  - inv_some Hs.
+    start_run. { mgo. reflexivity. }
+    eexists. split; [exact Hrun|].
+    constructor.
+    + exact Jb.
+    + exact Jh.
+    + intros l. destruct l as [| | | | | | | |n0|i0|i0|i0]; try solve [frames s m Jo Hrun].
+      destruct (Nat.eq_dec i0 i) as [->|Hn]; [|other_id_own s m Jo Hrun]. fin.
+    + intros i0. destruct (Nat.eq_dec i0 i) as [->|Hn]; [|cmd_others s m Jc Hrun i0].
+      apply (cmd_frame2 s m _ _ _ i (Jc i) Hrun); try qsolve. exact Hne.
+    + intros i0. destruct (Nat.eq_dec i0 i) as [->|Hn]; [|tmr_others s m Jt Hrun i0].
+      unfold tmr_ok. sset. rewrite updn_same. exact Hnr.
+    + intros n0. apply (msg_frame s m _ _ _ n0 (Jm n0) Hrun); reflexivity.
+    + exact Jj.
+    + exact Jl.
+    + exact Jr.
+Qed.
+
+Lemma ok_WCpl i s m s' evs : J s m -> step repaired s (WCpl i) = Some (s', evs) ->
+  exists m', mon_run m evs = Some m' /\ J s' m'.
+Proof.
+  intros HJ Hs. sstep Hs.
+  destruct (wrun s) eqn:Hw; cbn [andb] in Hs; [|discriminate].
+  destruct (tst s i) eqn:Hti; try discriminate.
+  jdestruct HJ.
+  pose proof (Jt i) as Hnr. unfold tmr_ok in Hnr. rewrite Hti in Hnr.
+  pose proof (Jo (LReply i)) as HR. cbn in HR. rewrite Hti in HR.
+  assert (Hne : tst s i <> TNone) by (rewrite Hti; discriminate).
+  destruct (cst s i) as [| | | |l|l] eqn:Hci; inv_some Hs.
+  4: { (* still waiting: the timeout is the answer *)
+    pose proof (Jc i) as Hc3. unfold cmd_ok in Hc3. rewrite Hci in Hc3.
+    pose proof (Jo (LAct i)) as HA. cbn in HA. rewrite Hci in HA.
+    assert (Hmsg : forall n0, owner_of (set_cst s i (CRepl (LReply i))) (LMsg n0) = owner_of s (LMsg n0)).
+    { intros n0. apply owner_msg_cst; [reflexivity|]. intros j _. sset. unfold updn.
+      destruct (Nat.eqb_spec j i) as [->|]; [rewrite Hci; exact I | destruct (cst s j); exact I]. }
+    start_run. { mgo. reflexivity. }
+    eexists. split; [exact Hrun|].
+    constructor.
+    + exact Jb.
+    + exact Jh.
+    + intros l. destruct l as [| | | | | | | |n0|i0|i0|i0]; try solve [frames s m Jo Hrun].
+      * via_old s m Jo Hrun. exact (Hmsg n0).
+      * destruct (Nat.eq_dec i0 i) as [->|Hn]; [|other_id_own s m Jo Hrun]. fin.
+      * destruct (Nat.eq_dec i0 i) as [->|Hn]; [|other_id_own s m Jo Hrun]. fin.
+      * destruct (Nat.eq_dec i0 i) as [->|Hn]; [|other_id_own s m Jo Hrun].
+        via_old s m Jo Hrun. cbn. rewrite updn_same, Hci. fin.
+    + intros i0. destruct (Nat.eq_dec i0 i) as [->|Hn]; [|cmd_others s m Jc Hrun i0].
+      unfold cmd_ok. sset. rewrite updn_same. fin.
+    + intros i0. destruct (Nat.eq_dec i0 i) as [->|Hn]; [|tmr_others s m Jt Hrun i0].
+      unfold tmr_ok. sset. rewrite updn_same. exact I.
+    + intros n0. apply (msg_frame s m _ _ _ n0 (Jm n0) Hrun); reflexivity.
+    + exact Jj.
+    + exact Jl.
+    + exact Jr. }
+  all: (* already answered: the late timeout is dropped *)
+    (start_run; [mgo; reflexivity|]);
+    (eexists; split; [exact Hrun|]);
+    constructor;
+    [ exact Jb | exact Jh
+    | intros l0; destruct l0 as [| | | | | | | |n0|i0|i0|i0]; try solve [frames s m Jo Hrun];
+      (destruct (Nat.eq_dec i0 i) as [->|Hn]; [|other_id_own s m Jo Hrun]);
+      cbn; rewrite HR; fin; rewrite ?Hci; unfold not_reply in Hnr; rewrite ?Hci in Hnr; rewrite ?Hnr; reflexivity
+    | intros i0; (destruct (Nat.eq_dec i0 i) as [->|Hn]; [|cmd_others s m Jc Hrun i0]);
+      apply (cmd_frame2 s m _ _ _ i (Jc i) Hrun); try qsolve; exact Hne
+    | intros i0; (destruct (Nat.eq_dec i0 i) as [->|Hn]; [|tmr_others s m Jt Hrun i0]);
+      unfold tmr_ok; sset; rewrite updn_same; exact I
+    | intros n0; apply (msg_frame s m _ _ _ n0 (Jm n0) Hrun); reflexivity
+    | exact Jj | exact Jl | exact Jr ].
+Qed.
+
+Lemma wmsg_reply n s m s' evs :
+  J s m -> wrun s = true -> mst s n = MQ ->
+  s' = set_mst s n MW ->
+  evs = [ERecv W (KMsg n); EAcc W LConn false; EAcc W (LMsg n) false; EAcc W LRecord false] ++
+        [EAcc W (LMsg n) true; EAcc W LSerial true; EAcc W LRecord true] ->
+  exists m', mon_run m evs = Some m' /\ J s' m'.
+Proof.
+  intros HJ Hw Hm -> ->. cbn [app].
+  jdestruct HJ.
+  pose proof (Jo (LMsg n)) as HM. cbn in HM. rewrite Hm in HM.
+  start_run. { mgo. reflexivity. }
+  eexists. split; [exact Hrun|].
+  constructor.
+  - exact Jb.
+  - exact Jh.
+  - intros l. destruct l as [| | | | | | | |n0|i0|i0|i0]; try solve [frames s m Jo Hrun].
+    destruct (Nat.eq_dec n0 n) as [->|Hn]; [|other_id_own s m Jo Hrun]. cbn. rewrite HM. fin.
+  - intros i0. apply (cmd_frame s m _ _ _ i0 (Jc i0) Hrun); try reflexivity. auto.
+  - intros i0. apply (tmr_frame s m _ _ _ i0 (Jt i0) Hrun); reflexivity.
+  - intros n0. destruct (Nat.eq_dec n0 n) as [->|Hn]; [|msg_others s m Jm Hrun n0].
+    unfold msg_ok. sset. rewrite updn_same. exact I.
+  - sset. destruct (joinst s) as [|n0|n0|]; try exact Jj; unfold updn.
+    + destruct Jj as [Jj1 [Jj2 Jj3]]. repeat split; auto.
+      destruct (Nat.eqb_spec n0 n) as [->|]; [congruence | exact Jj2].
+    + destruct (Nat.eqb_spec n0 n) as [->|]; [congruence | exact Jj].
+  - exact Jl.
+  - exact Jr.
+Qed.
+
+Lemma ok_WMsg n resp s m s' evs : J s m -> step repaired s (WMsg n resp) = Some (s', evs) ->
+  exists m', mon_run m evs = Some m' /\ J s' m'.
+Proof.
+  intros HJ Hs. sstep Hs.
+  destruct (wrun s) eqn:Hw; cbn [andb] in Hs; [|discriminate].
+  destruct (is_mst s n MQ) eqn:Hm; [|discriminate]. apply is_mst_inv in Hm.
+  destruct resp as [i|]; [|inv_some Hs; eapply wmsg_reply; eauto].
+  destruct (cst s i) as [| | | |l|l] eqn:Hci; try (inv_some Hs; eapply wmsg_reply; eauto; fail).
+  inv_some Hs.
+  jdestruct HJ.
+  pose proof (Jo (LMsg n)) as HM. cbn in HM. rewrite Hm in HM.
+  pose proof (Jc i) as Hc3. unfold cmd_ok in Hc3. rewrite Hci in Hc3.
+  pose proof (Jo (LAct i)) as HA. cbn in HA. rewrite Hci in HA.
+  start_run. { mgo. reflexivity. }
+  eexists. split; [exact Hrun|].
+  constructor.
+  - exact Jb.
+  - exact Jh.
+  - intros l. destruct l as [| | | | | | | |n0|i0|i0|i0]; try solve [frames s m Jo Hrun].
+    + destruct (Nat.eq_dec n0 n) as [->|Hn].
+      * fin.
+      * neq_facts. via_old s m Jo Hrun. apply owner_msg_cst.
+        -- sset. unfold updn. rw_neq. reflexivity.
+        -- intros j _. sset. unfold updn.
+           destruct (Nat.eqb_spec j i) as [->|]; [rewrite Hci; exact I | destruct (cst s j); exact I].
+    + destruct (Nat.eq_dec i0 i) as [->|Hn]; [|other_id_own s m Jo Hrun]. fin.
+    + destruct (Nat.eq_dec i0 i) as [->|Hn]; [|other_id_own s m Jo Hrun].
+      via_old s m Jo Hrun. cbn. rewrite updn_same, Hci. destruct (tst s i); reflexivity.
+    + destruct (Nat.eq_dec i0 i) as [->|Hn]; [|other_id_own s m Jo Hrun].
+      via_old s m Jo Hrun. cbn. rewrite updn_same, Hci. reflexivity.
+  - intros i0. destruct (Nat.eq_dec i0 i) as [->|Hn]; [|cmd_others s m Jc Hrun i0].
+    unfold cmd_ok. sset. rewrite updn_same. fin.
+  - intros i0. destruct (Nat.eq_dec i0 i) as [->|Hn]; [|tmr_others s m Jt Hrun i0].
+    pose proof (Jt i) as H0. unfold tmr_ok, not_reply in *. sset. rewrite updn_same. cbn [loc_eqb].
+    destruct (tst s i); try exact H0; try (destruct H0; split; auto); reflexivity.
+  - intros n0. destruct (Nat.eq_dec n0 n) as [->|Hn]; [|msg_others s m Jm Hrun n0].
+    unfold msg_ok. sset. rewrite updn_same. exact I.
+  - sset. destruct (joinst s) as [|n0|n0|]; try exact Jj; unfold updn.
+    + destruct Jj as [Jj1 [Jj2 Jj3]]. repeat split; auto.
+      destruct (Nat.eqb_spec n0 n) as [->|]; [congruence | exact Jj2].
+    + destruct (Nat.eqb_spec n0 n) as [->|]; [congruence | exact Jj].
+  - exact Jl.
+  - exact Jr.
+Qed.
+
+Lemma ok_WSeeStop s m s' evs : J s m -> step repaired s WSeeStop = Some (s', evs) ->
+  exists m', mon_run m evs = Some m' /\ J s' m'.
+Proof.
+  intros HJ Hs. sstep Hs.
+  destruct (wrun s) eqn:Hw; cbn [andb] in Hs; [|discriminate].
+  destruct (leavest s) eqn:Hlv; try discriminate. inv_some Hs.
+  jdestruct HJ.
+  start_run. { mgo. reflexivity. }
+  eexists. split; [exact Hrun|].
+  constructor.
+  - exact Jb.
+  - exact Jh.
+  - intros l. destruct l as [| | | | | | | |n0|i0|i0|i0]; solve [frames s m Jo Hrun].
+  - intros i. apply (cmd_frame s m _ _ _ i (Jc i) Hrun); try reflexivity. auto.
+  - intros i. apply (tmr_frame s m _ _ _ i (Jt i) Hrun); reflexivity.
+  - intros n0. apply (msg_frame s m _ _ _ n0 (Jm n0) Hrun); reflexivity.
+  - exact Jj.
+  - sset. rewrite Hlv. exact I.
+  - exact Jr.
+Qed.
+
+Lemma ok_WExit s m s' evs : J s m -> step repaired s WExit = Some (s', evs) ->
+  exists m', mon_run m evs = Some m' /\ J s' m'.
+Proof.
+  intros HJ Hs. sstep Hs. destruct (wstopping s); [|discriminate]. inv_some Hs.
+  exists m. split; [reflexivity|]. destruct HJ as [Jb Jh Jo Jc Jt Jm Jj Jl Jr].
+  constructor; auto.
+Qed.
+
+Lemma ok_WStopOut i s m s' evs : J s m -> step repaired s (WStopOut i) = Some (s', evs) ->
+  exists m', mon_run m evs = Some m' /\ J s' m'.
+Proof.
+  intros HJ Hs. sstep Hs.
+  destruct (wstopping s) eqn:Hw; cbn [andb] in Hs; [|discriminate].
+  destruct (cst s i) as [| | | |l|l] eqn:Hci; try discriminate. inv_some Hs.
+  jdestruct HJ.
+  pose proof (Jc i) as Hc3. unfold cmd_ok in Hc3. rewrite Hci in Hc3.
+  pose proof (Jo (LAct i)) as HA. cbn in HA. rewrite Hci in HA.
+  pose proof (Jo (LFin i)) as HF. cbn in HF. rewrite Hci in HF.
+  start_run. { mgo. reflexivity. }
+  eexists. split; [exact Hrun|].
+  constructor.
+  - exact Jb.
+  - exact Jh.
+  - intros l. destruct l as [| | | | | | | |n0|i0|i0|i0]; try solve [frames s m Jo Hrun].
+    + via_old s m Jo Hrun. apply owner_msg_cst; [reflexivity|]. intros j _. sset. unfold updn.
+      destruct (Nat.eqb_spec j i) as [->|]; [rewrite Hci; exact I | destruct (cst s j); exact I].
+    + destruct (Nat.eq_dec i0 i) as [->|Hn]; [|other_id_own s m Jo Hrun]. fin.
+    + destruct (Nat.eq_dec i0 i) as [->|Hn]; [|other_id_own s m Jo Hrun].
+      via_old s m Jo Hrun. cbn. rewrite updn_same, Hci. destruct (tst s i); reflexivity.
+    + destruct (Nat.eq_dec i0 i) as [->|Hn]; [|other_id_own s m Jo Hrun]. fin.
+  - intros i0. destruct (Nat.eq_dec i0 i) as [->|Hn]; [|cmd_others s m Jc Hrun i0].
+    unfold cmd_ok. sset. rewrite updn_same. fin.
+  - intros i0. destruct (Nat.eq_dec i0 i) as [->|Hn]; [|tmr_others s m Jt Hrun i0].
+    pose proof (Jt i) as H0. unfold tmr_ok, not_reply in *. sset. rewrite updn_same. cbn [loc_eqb].
+    destruct (tst s i); try exact H0; try (destruct H0; split; auto); reflexivity.
+  - intros n0. apply (msg_frame s m _ _ _ n0 (Jm n0) Hrun); reflexivity.
+  - exact Jj.
+  - exact Jl.
+  - exact Jr.
+Qed.
+
+Lemma ok_WStopDrain i s m s' evs : J s m -> step repaired s (WStopDrain i) = Some (s', evs) ->
+  exists m', mon_run m evs = Some m' /\ J s' m'.
+Proof.
+  intros HJ Hs. sstep Hs.
+  destruct (wstopping s) eqn:Hw; cbn [andb] in Hs; [|discriminate].
+  destruct (cst s i) as [| | | |l|l] eqn:Hci; try discriminate. inv_some Hs.
+  jdestruct HJ.
+  pose proof (Jc i) as Hc3. unfold cmd_ok in Hc3. rewrite Hci in Hc3. destruct Hc3 as [Hc3 [Hti Hlive]].
+  pose proof (Jt i) as Hcpl. unfold tmr_ok in Hcpl. rewrite Hti in Hcpl.
+  pose proof (Jo (LAct i)) as HA. cbn in HA. rewrite Hci in HA.
+  pose proof (Jo (LFin i)) as HF. cbn in HF. rewrite Hci in HF.
+  unfold sess_recv.
+  destruct (sess s) as [| | |i'|] eqn:Hsess; try contradiction.
+  - destruct (Nat.eqb_spec i' i) as [->|Hn].
+    + start_run. { mgo. reflexivity. }
+      eexists. split; [exact Hrun|].
+      constructor.
+      * exact Jb.
+      * exact Jh.
+      * intros l. destruct l as [| | | | | | | |n0|i0|i0|i0]; try solve [frames s m Jo Hrun].
+        -- cbn. rewrite HSess. fin.
+        -- via_old s m Jo Hrun. apply owner_msg_cst; [reflexivity|]. intros j _. sset. unfold updn.
+           destruct (Nat.eqb_spec j i) as [->|]; [rewrite Hci; exact I | destruct (cst s j); exact I].
+        -- destruct (Nat.eq_dec i0 i) as [->|Hn0]; [|other_id_own s m Jo Hrun]. fin.
+        -- destruct (Nat.eq_dec i0 i) as [->|Hn0]; [|other_id_own s m Jo Hrun].
+           via_old s m Jo Hrun. cbn. rewrite Hti. reflexivity.
+        -- destruct (Nat.eq_dec i0 i) as [->|Hn0]; [|other_id_own s m Jo Hrun]. fin.
+      * intros i0. destruct (Nat.eq_dec i0 i) as [->|Hn0]; [|cmd_others s m Jc Hrun i0].
+        unfold cmd_ok. sset. rewrite updn_same. fin.
+      * intros i0. destruct (Nat.eq_dec i0 i) as [->|Hn0]; [|tmr_others s m Jt Hrun i0].
+        unfold tmr_ok. sset. rewrite Hti. exact Hcpl.
+      * intros n0. apply (msg_frame s m _ _ _ n0 (Jm n0) Hrun); reflexivity.
+      * sset. destruct (joinst s); try exact Jj; destruct Jj as [_ [_ E]]; discriminate.
+      * exact Jl.
+      * sset. auto.
+    + neq_facts. start_run. { mgo. reflexivity. }
+      eexists. split; [exact Hrun|].
+      constructor.
+      * exact Jb.
+      * exact Jh.
+      * intros l. destruct l as [| | | | | | | |n0|i0|i0|i0]; try solve [frames s m Jo Hrun].
+        -- cbn. rewrite HSess. cbn. rw_neq. rewrite ?Hsess. fin.
+        -- via_old s m Jo Hrun. apply owner_msg_cst; [reflexivity|]. intros j _. sset. unfold updn.
+           destruct (Nat.eqb_spec j i) as [->|]; [rewrite Hci; exact I | destruct (cst s j); exact I].
+        -- destruct (Nat.eq_dec i0 i) as [->|Hn0]; [|other_id_own s m Jo Hrun]. fin.
+        -- destruct (Nat.eq_dec i0 i) as [->|Hn0]; [|other_id_own s m Jo Hrun].
+           via_old s m Jo Hrun. cbn. rewrite Hti. reflexivity.
+        -- destruct (Nat.eq_dec i0 i) as [->|Hn0]; [|other_id_own s m Jo Hrun]. fin.
+      * intros i0. destruct (Nat.eq_dec i0 i) as [->|Hn0]; [|cmd_others s m Jc Hrun i0].
+        unfold cmd_ok. sset. rewrite updn_same. fin.
+      * intros i0. destruct (Nat.eq_dec i0 i) as [->|Hn0]; [|tmr_others s m Jt Hrun i0].
+        unfold tmr_ok. sset. rewrite Hti. exact Hcpl.
+      * intros n0. apply (msg_frame s m _ _ _ n0 (Jm n0) Hrun); reflexivity.
+      * sset. rewrite Hsess. exact Jj.
+      * exact Jl.
+      * sset. rewrite Hsess. auto.
+  - start_run. { mgo. reflexivity. }
+    eexists. split; [exact Hrun|].
+    constructor.
+    * exact Jb.
+    * exact Jh.
+    * intros l. destruct l as [| | | | | | | |n0|i0|i0|i0]; try solve [frames s m Jo Hrun].
+      -- cbn. rewrite HSess. rewrite ?Hsess. fin.
+      -- via_old s m Jo Hrun. apply owner_msg_cst; [reflexivity|]. intros j _. sset. unfold updn.
+         destruct (Nat.eqb_spec j i) as [->|]; [rewrite Hci; exact I | destruct (cst s j); exact I].
+      -- destruct (Nat.eq_dec i0 i) as [->|Hn0]; [|other_id_own s m Jo Hrun]. fin.
+      -- destruct (Nat.eq_dec i0 i) as [->|Hn0]; [|other_id_own s m Jo Hrun].
+         via_old s m Jo Hrun. cbn. rewrite Hti. reflexivity.
+      -- destruct (Nat.eq_dec i0 i) as [->|Hn0]; [|other_id_own s m Jo Hrun]. fin.
+    * intros i0. destruct (Nat.eq_dec i0 i) as [->|Hn0]; [|cmd_others s m Jc Hrun i0].
+      unfold cmd_ok. sset. rewrite updn_same. fin.
+    * intros i0. destruct (Nat.eq_dec i0 i) as [->|Hn0]; [|tmr_others s m Jt Hrun i0].
+      unfold tmr_ok. sset. rewrite Hti. exact Hcpl.
+    * intros n0. apply (msg_frame s m _ _ _ n0 (Jm n0) Hrun); reflexivity.
+    * sset. rewrite Hsess. exact Jj.
+    * exact Jl.
+    * sset. rewrite Hsess. auto.
+Qed.
+
+(* ---- every step of the repaired model keeps the invariant *)
+Lemma step_ok s m c s' evs : J s m -> step repaired s c = Some (s', evs) ->
+  exists m', mon_run m evs = Some m' /\ J s' m'.
+Proof.
+  intros HJ Hs. destruct c.
+  - cbn [step] in Hs. rewrite (j_booted _ _ HJ) in Hs. discriminate.
+  - eapply ok_RRead; eauto.
+  - eapply ok_RJoinSend; eauto.
+  - eapply ok_RJoinAck; eauto.
+  - eapply ok_RPush; eauto.
+  - eapply ok_RStop; eauto.
+  - eapply ok_RStop2; eauto.
+  - eapply ok_MJoin; eauto.
+  - eapply ok_MLeave; eauto.
+  - eapply ok_MWrite; eauto.
+  - eapply ok_CCall; eauto.
+  - eapply ok_CRet; eauto.
+  - eapply ok_WAct; eauto.
+  - eapply ok_WMsg; eauto.
+  - eapply ok_WCpl; eauto.
+  - eapply ok_WSeeStop; eauto.
+  - eapply ok_WStopOut; eauto.
+  - eapply ok_WStopDrain; eauto.
+  - eapply ok_WExit; eauto.
+  - eapply ok_TFire; eauto.
+Qed.
+
+Lemma init_only_boot c s' evs : step repaired init c = Some (s', evs) ->
+  s' = set_booted init /\ evs = boot_evs.
+Proof.
+  destruct c; cbn; try discriminate.
+  intros [= <- <-]. split; reflexivity.
+Qed.
+
+Definition Good (s : st) (tr : list ev) : Prop :=
+  (s = init /\ tr = []) \/ exists m, mon_run mon0 tr = Some m /\ J s m.
+
+Lemma Good_step s tr c s' o : Good s tr -> step repaired s c = Some (s', o) -> Good s' (tr ++ o).
+Proof.
+  intros [[-> ->]|[m [Hr HJ]]] Hs.
+  - destruct (init_only_boot c s' o Hs) as [-> ->]. right. cbn [app]. exact boot_ok.
+  - destruct (step_ok s m c s' o HJ Hs) as [m' [Hr' HJ']]. right. exists m'. split; [|exact HJ'].
+    rewrite mon_run_app, Hr. exact Hr'.
+Qed.
+
+(* every schedule of the repaired connection respects the ownership discipline *)
+Theorem conn_disciplined : forall sched,
+  exists m, mon_run mon0 (trace (step repaired) init sched) = Some m.
+Proof.
+  intros sched.
+  pose proof (run_invariant_all _ _ _ (step repaired) Good Good_step sched init (or_introl (conj eq_refl eq_refl))) as H.
+  destruct H as [[_ ->]|[m [Hr _]]]; [exists mon0; reflexivity | exists m; exact Hr].
+Qed.
+
+Theorem race_free : forall sched, races (trace (step repaired) init sched) = [].
+Proof. intros sched. destruct (conn_disciplined sched) as [m Hm]. exact (mon_sound _ _ Hm). Qed.
